@@ -306,8 +306,22 @@ def stored_arrays(inp):
         cc.add_single_site_control(a, 0, 1)
         return [a], lambda: [x for x in cc.get_single_site_controls(1, False) if x is not None]
     sites['ChainControl.add_single_site_control'] = s_cc
+
+    def s_ctl(time, post):
+        def f():
+            a = c(4, 4)
+            ct = Ctl.Control(2)
+            ct.add_single(time, a, post=post)
+            return [a], lambda: [x for x in ct.get_controls(3, dt=0.1, start_time=0.0) if x is not None]
+        return f
+    sites['Control.add_single[step]'] = s_ctl(3, False)
+    sites['Control.add_single[step] post'] = s_ctl(3, True)
+    sites['Control.add_single[time]'] = s_ctl(0.3, False)
+    sites['Control.add_single[time] post'] = s_ctl(0.3, True)
     tgt = inp.get('target') or ''
     names = [n for n in sites if ('[' + n + ',') in tgt] or list(sites)
+    if 'Control.add_single' in tgt and 'ChainControl' not in tgt:
+        names = [n for n in sites if n.startswith('Control.add_single')]
     if '_tempo_physical_input_parse' in tgt:
         names = ['Tempo initial state (C-ordered)', 'Tempo initial state (Fortran-ordered)']
     if any(n in ('_parse_state', 'Dynamics.add') for n in names):
